@@ -27,11 +27,20 @@ pub struct BuildOpts {
     pub stats_swarm: bool,
     /// allow a share of runs to be plain arbitrary bytes
     pub soup_pct: usize,
+    /// "wide" statistics workload: this many tiny records at least, ids from a large alphabet, so
+    /// that hundreds of distinct ids meet in one collector and in one merge (0 = off)
+    pub wide_records: usize,
 }
 
 pub fn build(rw: &mut Rng, rf: &mut Rng, o: &BuildOpts, st: &mut Stats) -> Built {
     let storage = o.storage.unwrap_or_else(|| rw.bool());
-    let swarm = if o.stats_swarm { Swarm::for_stats(rw, storage) } else { Swarm::draw(rw, storage) };
+    let mut swarm = if o.stats_swarm { Swarm::for_stats(rw, storage) } else { Swarm::draw(rw, storage) };
+    if o.wide_records > 0 {
+        swarm.id_alphabet = 64;
+        swarm.size_w = [1, 0, 0, 0];
+        swarm.max_args = 1;
+        swarm.vari_pct = 0;
+    }
     let n = match rw.below(10) {
         0 => 0,
         1 => 1,
@@ -40,6 +49,7 @@ pub fn build(rw: &mut Rng, rf: &mut Rng, o: &BuildOpts, st: &mut Stats) -> Built
         _ => rw.below(o.max_records + 1),
     }
     .min(o.max_records);
+    let n = if o.wide_records > 0 { o.wide_records + rw.below(o.wide_records) } else { n };
     let mut recs: Vec<Rec> = (0..n)
         .map(|_| {
             if o.foreign_pct > 0 && rw.chance(o.foreign_pct, 100) {
